@@ -206,6 +206,39 @@ def run(ctx):
                           "%s makes instances of this line class falsy in "
                           "some states; Connection.connect tests the "
                           "duplicate search with `if previous:`" % bad[0])
+    # the owner of a line is truth-tested too (`if self._gfa:` guards the
+    # whole rename path of _set_existing_field): a Gfa that can be falsy
+    # (empty, no segments, ...) would rename without the duplicate search and
+    # without re-registering the line
+    owner_tests = []
+    for f in sorted(repo.functions.values(), key=lambda f: f.qualname):
+        if f.cls is None or not (Line in f.cls.mro or f.cls in Line.mro or
+                                 any(f.cls in c.mro for c in
+                                     record_classes(repo))):
+            continue
+        for n in walk_no_nested(f.node):
+            tests = []
+            if isinstance(n, (ast.If, ast.While, ast.IfExp)):
+                tests.append(n.test)
+            if isinstance(n, ast.BoolOp):
+                tests.extend(n.values)
+            if isinstance(n, ast.UnaryOp) and isinstance(n.op, ast.Not):
+                tests.append(n.operand)
+            for t in tests:
+                if isinstance(t, ast.Attribute) and t.attr in ("_gfa", "gfa") \
+                        and isinstance(t.value, ast.Name) and \
+                        t.value.id == f.self_name:
+                    owner_tests.append(f.short)
+    ctx.instance(R)
+    bad = [m for m in ("__bool__", "__len__")
+           if gfacls.find_method(m) is not None]
+    ok = not bad or not owner_tests
+    ctx.oblige(ok)
+    if not ok:
+        ctx.violation(R, "class " + gfacls.short, bad[0],
+                      "%s makes a Gfa falsy in some states; %s test(s) the "
+                      "owner of a line by truth value (`if self._gfa:`)" % (
+                          bad[0], ", ".join(sorted(set(owner_tests))[:3])))
     ctx.exhaustive[R] = True
 
     # ------------------------------------------------------------------
